@@ -29,6 +29,8 @@ namespace vf {
         S_STOP_BEFORE_EXEC = 70,   // stop_state::request_stop between dequeue and execute
         S_STOP_AFTER_EXEC = 71,    // ... after execute
         S_STOP_REMOVE = 72,        // remove_callback after the unlink attempt
+        S_STOP_REMOVE_LOCKED = 73, // remove_callback: state word locked, before the unlink attempt
+        S_STOP_ADD_LOCKED = 74,    // add_callback: state word locked, before linking
         S_IQ_POP_LEFT = 80,        // contiguous_index_queue::pop_left between load and CAS
         S_IQ_POP_RIGHT = 81,
         S_DQ_ANCHOR_LOADED = 90,   // deque push/pop: anchor loaded
